@@ -60,6 +60,8 @@ RULES = {
     "R20": "`x.to_string()` through Display (core::fmt: no specification can be attached) redirected to the wrapper `w_display_to_string(x)` (a stub: the Display impls are not extracted); the text is the uninterpreted `display_text(x)`",
     "R21": "`iter.collect()` into a HashSet (vstd specifies collect only for Vec; HashSet is foreign, no FromIteratorSpecImpl can be added) written as `w_collect_id_set(iter)`, a wrapper whose body is exactly `it.collect()` (the postfix call becomes a prefix call: `= x.parents()` / `.collect();` are rewritten separately so that the closure in between stays verbatim)",
     "R22": "`a.difference(&b).copied().collect()` (hash_set::Difference, Copied: no specification within reach) redirected to the wrapper `w_id_set_difference(&a, &b)` whose body is exactly that expression",
+    "R23": "`a.chain(b).collect()` into an HpoGroup (Iterator::chain is a provided method: no specification can be attached) written as `w_chain_collect_group(a, b)`, a wrapper whose body is exactly `first.chain(second).collect()` (the postfix chain becomes a prefix call; the filter closure in between stays verbatim)",
+    "R24": "`iter.fold(HashSet::default(), |acc, element| &acc | element)` (Iterator::fold on an adapter: no specification can be attached) written as `w_union_all(iter)`, a wrapper whose body is exactly that fold (the postfix fold becomes a prefix call; the map closure in between stays verbatim)",
     "R11": "`const X: T = e;` written in Verus's exec-const form `exec const X: T ensures .. { e }` (same initializer expression)",
 }
 
